@@ -1,0 +1,44 @@
+//! Trace points for external conformance checking.
+//!
+//! Only compiled with `--cfg watchexec_verif`. A trace point is a call to [`emit`] with a static
+//! name and two integers; it goes to the sink installed for the current thread, else to the
+//! process-wide sink, else nowhere.
+
+#![allow(missing_docs, clippy::missing_panics_doc)]
+
+use std::{
+	cell::RefCell,
+	sync::{Arc, RwLock},
+};
+
+pub type Sink = Arc<dyn Fn(&'static str, usize, usize) + Send + Sync>;
+
+thread_local! {
+	static LOCAL: RefCell<Option<Sink>> = const { RefCell::new(None) };
+}
+
+static GLOBAL: RwLock<Option<Sink>> = RwLock::new(None);
+
+/// Install (or remove) the sink for the current thread.
+pub fn set_thread_sink(sink: Option<Sink>) {
+	LOCAL.with(|l| *l.borrow_mut() = sink);
+}
+
+/// Install (or remove) the process-wide sink.
+pub fn set_global_sink(sink: Option<Sink>) {
+	*GLOBAL.write().expect("verif sink lock") = sink;
+}
+
+/// Record a trace point.
+pub fn emit(name: &'static str, a: usize, b: usize) {
+	let local = LOCAL.with(|l| l.borrow().clone());
+	if let Some(sink) = local {
+		sink(name, a, b);
+		return;
+	}
+
+	let global = GLOBAL.read().expect("verif sink lock").clone();
+	if let Some(sink) = global {
+		sink(name, a, b);
+	}
+}
